@@ -219,7 +219,10 @@ def parse_rvalue(s):
         return ('use', ('copy', parse_place(s[len('deref_copy '):])))
     if s.startswith('&raw const ') or s.startswith('&raw mut '):
         mut = s.startswith('&raw mut ')
-        return ('ref', mut, parse_place(s.split(' ', 2)[2]))
+        rest = s.split(' ', 2)[2]
+        if rest.startswith('(fake) '):          # `&raw const (fake) (*_4)`: a fake borrow for match guards, same place
+            rest = rest[len('(fake) '):]
+        return ('ref', mut, parse_place(rest))
     if s.startswith('&fake shallow '):
         return ('ref', False, parse_place(s[len('&fake shallow '):]))
     if s.startswith('&mut '):
